@@ -127,6 +127,7 @@ class BleAccessory:
         self.response_hook = None  # hook(client, handle, fragments) -> fragments (C06 fault injection)
         self.requests: list = []
         self.unverified_writes: list = []
+        self.response_fragment = 150
         self.allow_resume = True
 
     def pairing_data(self):
@@ -151,8 +152,14 @@ class BleAccessory:
         if opcode == 0x03:  # CHAR_READ
             fmt = self.chars[iid][2]
             v = self.values.get(iid)
-            raw = struct.pack(PACK[fmt], v) if fmt in PACK and v is not None else (v.encode() if isinstance(v, str) else (v or b""))
-            return 0, reftlv.encode([(1, raw)]), None, None
+            if isinstance(v, tuple) and v[0] == "raw":
+                raw = bytes(v[1] or b"")  # what a controller wrote earlier, byte for byte
+            else:
+                raw = struct.pack(PACK[fmt], v) if fmt in PACK and v is not None else (v.encode() if isinstance(v, str) else (v or b""))
+            body = reftlv.encode([(1, raw)])
+            # a real accessory cuts a long response into fragments of its ATT payload size
+            cuts = list(range(self.response_fragment, len(body), self.response_fragment)) if len(body) > self.response_fragment else None
+            return 0, body, cuts, None
         if opcode == 0x02:  # CHAR_WRITE
             d = dict(reftlv.decode(body or b""))
             if handle.iid == 22:
